@@ -334,6 +334,9 @@ func (pr *progRender) render() string {
 			}
 			return out
 		}
+		if s.EmitProcBase {
+			out = append(out, func() string { return n.cff + ".WithEmitter(" + pr.wrap("rt.ProcBase()") + ")" })
+		}
 		for i := 0; i < s.Emitters; i++ {
 			i := i
 			out = append(out, func() string { return n.cff + ".WithEmitter(" + pr.wrap(fmt.Sprintf("env.Em(%d)", i)) + ")" })
